@@ -173,13 +173,14 @@ def cachemax_cases(ctx):
         kbase = rng.choice([0, 0, 0, 2 ** 53, 1700000000123456000])     # keys may be integers no float can tell apart
         # the key function may return numpy scalars of a narrow or unsigned type (a frame's .sum(), a uint8 pixel): they order like the
         # numbers they are — 0 is the smallest unsigned key, -128 the smallest int8
-        ktype = rng.choice([None, None, None, 'uint64', 'uint8', 'int8'])
-        kpool = {'uint64': [0, 0, 1, 2, 5, 41, 650, 700], 'uint8': [0, 0, 1, 3, 200, 255], 'int8': [-128, -128, -127, -1, 0, 3, 127]}.get(ktype)
+        ktype = rng.choice([None, None, None, 'uint64', 'uint8', 'int8', 'str', 'tuple'])      # keys need an order, not arithmetic: strings and tuples too
+        kpool = {'uint64': [0, 0, 1, 2, 5, 41, 650, 700], 'uint8': [0, 0, 1, 3, 200, 255], 'int8': [-128, -128, -127, -1, 0, 3, 127],
+                 'str': [0, 1, 2, 3, 5, 8, 13, 21], 'tuple': [0, 1, 2, 3, 5, 8, 13, 21]}.get(ktype)
         for s, n in ((sa, na), (sb, nb)):
             for _ in range(n):
                 t += rng.choice([1, 1, 2, 7])            # strictly increasing: (key, time) pairs are distinct
                 s.append((rng.choice(kpool) if kpool else kbase + rng.randint(-3, 6), t, next(ids)))
-        conv = np.dtype(ktype).type if ktype else (lambda v: v)
+        conv = (lambda v: 'key%05d' % v) if ktype == 'str' else ((lambda v: (v, 'x')) if ktype == 'tuple' else (np.dtype(ktype).type if ktype else (lambda v: v)))
         mk = lambda: A.CacheMaximum(length=L, key=lambda o: conv(o[0]), time_key=lambda o: o[1], timeout=tmo)  # noqa
         a, b = mk(), mk()
         case = dict(kind='CacheMaximum', L=L, timeout=tmo, a=sa, b=sb, key_type=ktype)
